@@ -21,6 +21,8 @@ if TYPE_CHECKING:  # pragma: no cover
 
 SUPERSCRIPTS = {
     "-": "⁻",
+    "+": "⁺",
+    "e": "ᵉ",  # float exponents may be written in scientific notation (1e-15)
     ".": ".",  # There does not seem to be a superscript '.' in Unicode yet
     **{
         str(i): v
